@@ -37,6 +37,11 @@ def xcase_term(pipe, req, res, n=48, exps=()):
     return '(mkX %s %s %s %s)' % (env_for(pipe, req, n, exps), emit.crequest(req), fin_t, emit.cobserved(res))
 
 
+def _fnum(x):
+    """numbers of a dump: NaN / Inf come as strings"""
+    return float(x) if isinstance(x, str) else x
+
+
 def exp_args(req, res):
     """arguments at which the real code may evaluate math.Exp for this request (a superset)"""
     xs = set()
@@ -59,11 +64,11 @@ def exp_args(req, res):
             anch = [a.get('alternative') for a in (p.get('anchoringAlternatives') or [])]
             for c in cur.get('Criteria') or []:
                 cid = c['Id']
-                vals = [a['Criteria'].get(cid) for a in alts if cid in a['Criteria']]
+                vals = [_fnum(a['Criteria'].get(cid)) for a in alts if cid in a['Criteria']]
                 if not vals:
                     continue
                 if c.get('ValuesRange'):
-                    mn, mx = c['ValuesRange']['Min'], c['ValuesRange']['Max']
+                    mn, mx = _fnum(c['ValuesRange']['Min']), _fnum(c['ValuesRange']['Max'])
                 else:
                     mn, mx = vals[0], vals[0]
                     for v in vals[1:]:
@@ -75,16 +80,16 @@ def exp_args(req, res):
                 cd = mx - mn
                 scale = dif / cd if cd != 0 else 0.0
                 sg = -1.0 if c.get('Type') == 'cost' else 1.0
-                refs = [a['Criteria'][cid] for a in alts if a['Id'] in anch and cid in a['Criteria']]
+                refs = [_fnum(a['Criteria'][cid]) for a in alts if a['Id'] in anch and cid in a['Criteria']]
                 for a in alts:
                     if cid not in a['Criteria']:
                         continue
                     for r in refs:
-                        d = (a['Criteria'][cid] * sg - r * sg) * scale
+                        d = (_fnum(a['Criteria'][cid]) * sg - r * sg) * scale
                         for al in alphas:
                             xs.add(al * d)
                             xs.add(al * (-d))
-    return sorted(xs)
+    return sorted(x for x in xs if x == x and abs(x) != float("inf"))
 
 
 _exp_cache = {}
@@ -115,11 +120,42 @@ def run_all(pipe, reqs, tag, n=48, op='trace'):
         for i, v in zip(again, v2):
             verd[i] = v
         logs += l2
+    # code 21: the binary64 model computes an answer holding NaN / Inf, which the service's JSON encoder refuses; it is agreement
+    # when the implementation failed exactly there, and "model accepts, code rejects" otherwise
+    for res, v in zip(ress, verd):
+        if v and v[0] == 21:
+            if res.get('kind') == 'marshal':
+                v[0] = 0
+                core.NONFINITE += 1
+            else:
+                v[0] = 2
     return ress, verd, logs
 
 
+NONFINITE_STRINGS = ('NaN', '+Inf', '-Inf')
+
+
+def has_nonfinite(t):
+    """a dumped Go value holds a float that is not a number (the dumps write them as strings)"""
+    if isinstance(t, str):
+        return t in NONFINITE_STRINGS
+    if isinstance(t, dict):
+        return any(has_nonfinite(x) for x in t.values())
+    if isinstance(t, list):
+        return any(has_nonfinite(x) for x in t)
+    return False
+
+
+def tolerant_report(p):
+    """(report tree, encoder message or None): a report JSON cannot carry comes from the harness as the tree the encoder would
+    have built with NaN / Inf as strings"""
+    if isinstance(p, dict) and '__marshalError' in p and '__tolerant' in p:
+        return p['__tolerant'], p['__marshalError']
+    return p, None
+
+
 # ---- stages (one bias application each) -----------------------------------------------------------
-SCOLS = ['stage', 'inv', 'frame', 'C09later', 'C15', 'C16', 'C17', 'C18', 'C19', 'reported', 'faithful']
+SCOLS = ['stage', 'inv', 'frame', 'C09later', 'C15', 'C16', 'C17', 'C18', 'C19', 'reported', 'faithful', 'model_nonfinite']
 
 
 def enabled_biases(req):
@@ -153,8 +189,8 @@ def stage_terms(pipe, req, res, n=48):
             before = emit.cstate_d(method, st['curBefore'])
             after = 'None' if st.get('curAfter') is None else '(Some %s)' % emit.cstate_d(method, st['curAfter'])
             afterf = 'None' if st.get('curAfterFinal') is None else '(Some %s)' % emit.cstate_d(method, st['curAfterFinal'])
-            rep = emit.creport(b['name'], method, st.get('props')) if st.get('curAfter') is not None else 'R_none'
-            repf = emit.creport(b['name'], method, st.get('propsFinal')) if st.get('curAfterFinal') is not None else 'R_none'
+            rep = emit.creport(b['name'], method, tolerant_report(st.get('props'))[0]) if st.get('curAfter') is not None else 'R_none'
+            repf = emit.creport(b['name'], method, tolerant_report(st.get('propsFinal'))[0]) if st.get('curAfterFinal') is not None else 'R_none'
         except Exception as e:   # a shape the emitter does not know: reported by the caller
             out.append((None, {'bias': b, 'stage': st, 'error': repr(e)}))
             continue
